@@ -68,6 +68,37 @@ def fingerprint(repo_dir, entry, cache={}):
     return '%d:%s' % (len(defs), h.hexdigest()[:20])
 
 
+def residue(repo_dir, path, cls=None, cache={}):
+    """digest of the code OUTSIDE function bodies: the top-level statements of a file that are neither `def` nor `class`
+    (imports, tables, aliases, rebinding such as `MetaClass.delete = …`, `setattr(…)`, definitions under `if` / `try`), resp.
+    for a class its bases, decorators, keywords and the statements of its body that are not `def` (docs/audit-round4.md,
+    finding 3: module-level rebinding was invisible to the per-function digests)"""
+    key = (repo_dir, path)
+    if key not in cache:
+        cache[key] = ast.parse(open(os.path.join(repo_dir, path)).read())
+    tree = cache[key]
+    h = hashlib.sha256()
+    if cls is None:
+        nodes = [n for n in tree.body if not isinstance(n, (ast.FunctionDef, ast.AsyncFunctionDef, ast.ClassDef))]
+        # names bound more than once at module level (a second `def f` later in the file replaces the first)
+        names = [n.name for n in tree.body if isinstance(n, (ast.FunctionDef, ast.AsyncFunctionDef, ast.ClassDef))]
+        h.update(repr(sorted(x for x in set(names) if names.count(x) > 1)).encode('utf-8'))
+    else:
+        classes = [n for n in tree.body if isinstance(n, ast.ClassDef) and n.name == cls]
+        if not classes:
+            return 'MISSING'
+        nodes = []
+        for c in classes:
+            nodes += list(c.bases) + list(c.keywords) + list(c.decorator_list)
+            nodes += [n for n in c.body if not isinstance(n, (ast.FunctionDef, ast.AsyncFunctionDef))]
+            names = [n.name for n in c.body if isinstance(n, (ast.FunctionDef, ast.AsyncFunctionDef))]
+            h.update(repr(sorted(x for x in set(names) if names.count(x) > 1)).encode('utf-8'))
+    for n in nodes:
+        h.update(_dump(_strip_doc(n)).encode('utf-8'))
+        h.update(b'\0')
+    return '%d:%s' % (len(nodes), h.hexdigest()[:20])
+
+
 def environment_of(verif_dir, prop):
     p = os.path.join(verif_dir, 'tools', 'meta', prop + '.json')
     if not os.path.exists(p):
@@ -76,7 +107,17 @@ def environment_of(verif_dir, prop):
 
 
 def current(repo_dir, verif_dir, prop):
-    return dict((e, fingerprint(repo_dir, e)) for e in environment_of(verif_dir, prop))
+    env = environment_of(verif_dir, prop)
+    out = dict((e, fingerprint(repo_dir, e)) for e in env)
+    # implied entries: the residue of every file, and of every class, named in the list
+    for e in env:
+        path, qual = e.split(':', 1)
+        out.setdefault(path + ':<module level>', residue(repo_dir, path))
+        if '.' in qual or (fingerprint(repo_dir, e) != 'MISSING' and any(isinstance(d, ast.ClassDef) for d in _defs(
+                ast.parse(open(os.path.join(repo_dir, path)).read()), qual))):
+            cls = qual.split('.')[0]
+            out.setdefault('%s:%s<class level>' % (path, cls), residue(repo_dir, path, cls))
+    return out
 
 
 def snapshot(verif_dir):
